@@ -7,6 +7,8 @@ use crate::ctx::{guard, hx, Ctx, Panicked};
 use crate::prng::Rng;
 
 #[cfg(feature = "sodium")]
+pub mod c05;
+#[cfg(feature = "sodium")]
 pub mod c07;
 pub mod c08;
 #[cfg(feature = "sodium")]
@@ -14,6 +16,8 @@ pub mod c12;
 
 pub fn dispatch(name: &str, cx: &mut Ctx) -> bool {
     match name {
+        #[cfg(feature = "sodium")]
+        "c05" => c05::run(cx),
         #[cfg(feature = "sodium")]
         "c07" => c07::run(cx),
         "c08" => c08::run(cx),
